@@ -271,7 +271,8 @@ fn check_list(text: &str) -> Verdict {
         if t.0 != dd.0 || norm(&t.1) != norm(&dd.1) {
             return Verdict::Bad { what: "argument tokens differ".into(), expected: show(&t_elems), observed: show(&d_elems) };
         }
-        let kw_lit = t.1.len() == 1 && (t.1[0] == "true" || t.1[0] == "false");
+        // lexically identifiers but not path expressions (`_` is not even a valid argument expression): don't care
+        let kw_lit = t.1.len() == 1 && (t.1[0] == "true" || t.1[0] == "false" || t.1[0] == "_");
         if t.2 != dd.2 && !kw_lit {
             return Verdict::Bad {
                 what: "single-identifier classification differs".into(),
@@ -589,6 +590,35 @@ fn rustc_split(ctx: &Ctx, lists: &[String]) -> Result<Vec<Option<Vec<String>>>, 
             }
         })
         .collect())
+}
+
+/// One token text through the splitter comparison and the attribute-level checks: used by the fuzz target.
+pub fn check_text(text: &str) -> Option<(String, String, String, Option<String>)> {
+    match check_list(text) {
+        Verdict::Bad { what, expected, observed } => {
+            let sig = sig_for(&what, text, &expected, &observed);
+            Some((what, expected, observed, sig))
+        }
+        Verdict::Ok => {
+            let ts = text.parse::<TokenStream>().ok()?;
+            let t = Punctuated::<TruthArg, Token![,]>::parse_terminated.parse2(ts).ok()?;
+            // the attribute-level check re-parses user tokens through format_args!-like positions: only lists that
+            // format_args! accepts (named arguments after positional ones)
+            let mut seen_named = false;
+            for a in t.iter() {
+                if a.alias.is_some() {
+                    seen_named = true;
+                } else if seen_named {
+                    return None;
+                }
+            }
+            through_attribute(text, t.len(), t.iter().any(|a| a.alias.is_some())).map(|(what, e, o)| {
+                let sig = sig_for(&what, text, &e, &o);
+                (what, e, o, sig)
+            })
+        }
+        Verdict::NotRust => None,
+    }
 }
 
 pub fn replay(ctx: &Ctx, case: &Value) -> Report {
